@@ -23,6 +23,8 @@ import (
 type Input struct {
 	Kind string `json:"kind"`
 	Src  string `json:"src"`
+	// Tags: class labels of the generated shape (evidence counters only, never read by the oracle's verdict)
+	Tags []string `json:"tags,omitempty"`
 }
 
 var vocab = []string{
@@ -48,8 +50,231 @@ func genStringRune(t *rapid.T) rune {
 	}
 }
 
+// ---------- type expressions ----------
+
+// typeGen writes type expressions as the grammar reads them: prefixes ('*', '[]', 'chan', 'map[K]'), then a
+// primary (a name or a struct literal), then member selectors, which bind to the primary. Every part is
+// drawn independently, so selectors are applied to struct literals as often as to names and the result is
+// wrapped by prefixes and by the enclosing make/new/composite-literal forms in every combination - also the
+// combinations an action of the grammar rejects.
+type typeGen struct {
+	t    *rapid.T
+	tags map[string]bool
+}
+
+var typePrimNames = []string{"int64", "string", "float64", "bool", "interface", "T", "a", "x", "mod"}
+
+func (g *typeGen) typ(d int) string {
+	t := g.t
+	var b strings.Builder
+	npre := rapid.IntRange(0, 2).Draw(t, "npre")
+	if d >= 2 && npre > 1 {
+		npre = 1
+	}
+	for i := 0; i < npre; i++ {
+		switch rapid.IntRange(0, 4).Draw(t, "pre") {
+		case 0:
+			b.WriteString("*")
+		case 1:
+			b.WriteString(strings.Repeat("[]", rapid.IntRange(1, 2).Draw(t, "dims")))
+		case 2:
+			b.WriteString("chan ")
+		case 3:
+			if d < 2 {
+				b.WriteString("map[" + g.typ(d+1) + "]")
+			} else {
+				b.WriteString("map[string]")
+			}
+		default:
+			b.WriteString("[]")
+		}
+	}
+	isStruct := false
+	switch k := rapid.IntRange(0, 11).Draw(t, "prim"); {
+	case k >= 8 && k <= 10 && d < 3:
+		isStruct = true
+		nl := rapid.SampledFrom([]string{"", "", "\n"}).Draw(t, "structnl")
+		b.WriteString("struct{" + nl)
+		for i, n := 0, rapid.IntRange(1, 3).Draw(t, "nfields"); i < n; i++ {
+			if i > 0 {
+				b.WriteString(rapid.SampledFrom([]string{", ", ",", ",\n"}).Draw(t, "fieldsep"))
+			}
+			b.WriteString(rapid.SampledFrom([]string{"A", "B", "a", "b"}).Draw(t, "field") + " " + g.typ(d+1))
+		}
+		b.WriteString(nl + "}")
+	case k == 11:
+		// fragments that are no type at all
+		g.tags["type_broken_primary"] = true
+		b.WriteString(rapid.SampledFrom([]string{"struct{}", "struct{a}", "struct{a int64,}", "struct{,}", "", "1", "(int64)", "func", "map[]int64", "map[string]", "[1]int64", "type", "type T", "nil", "\"s\"", "struct", "struct{a int64", "a b"}).Draw(t, "broken"))
+	default:
+		b.WriteString(rapid.SampledFrom(typePrimNames).Draw(t, "tname"))
+	}
+	nsel := [...]int{0, 0, 0, 0, 0, 1, 1, 1, 2, 3}[rapid.IntRange(0, 9).Draw(t, "nsel")]
+	for i := 0; i < nsel; i++ {
+		b.WriteString("." + rapid.SampledFrom([]string{"b", "T", "int64", "x"}).Draw(t, "sel"))
+	}
+	if nsel > 0 {
+		if isStruct {
+			g.tags["type_selector_on_struct_literal"] = true
+			if npre > 0 || nsel > 1 {
+				g.tags["type_selector_on_struct_literal_wrapped_again"] = true
+			}
+		} else {
+			g.tags["type_selector_on_name"] = true
+		}
+	}
+	if isStruct && npre > 0 {
+		g.tags["type_prefixed_struct_literal"] = true
+	}
+	return b.String()
+}
+
+func genTypeExprInput(t *rapid.T) Input {
+	g := &typeGen{t: t, tags: map[string]bool{}}
+	ty := g.typ(0)
+	e := func() string {
+		return rapid.SampledFrom([]string{"1", "n", "0", "2 + 1", "len(a)"}).Draw(t, "sizeexpr")
+	}
+	var use string
+	switch rapid.IntRange(0, 8).Draw(t, "typectx") {
+	case 0, 1:
+		use = "new(" + ty + ")"
+		g.tags["typectx_new"] = true
+	case 2:
+		use = "make(" + ty + ")"
+		g.tags["typectx_make"] = true
+	case 3:
+		use = "make(" + ty + ", " + e() + ")"
+		g.tags["typectx_make"] = true
+	case 4:
+		use = "make(" + ty + ", " + e() + ", " + e() + ")"
+		g.tags["typectx_make"] = true
+	case 5:
+		use = strings.Repeat("[]", rapid.IntRange(1, 2).Draw(t, "litdims")) + ty + "{" + rapid.SampledFrom([]string{"", "1", "1, 2", "\n1,\n"}).Draw(t, "elems") + "}"
+		g.tags["typectx_slice_literal"] = true
+	case 6:
+		use = "map[" + ty + "]" + g.typ(1) + "{" + rapid.SampledFrom([]string{"", "\"a\": 1", "\n1: 2,\n"}).Draw(t, "pairs") + "}"
+		g.tags["typectx_map_literal"] = true
+	case 7:
+		use = "map[" + g.typ(1) + "]" + ty + "{}"
+		g.tags["typectx_map_literal"] = true
+	default:
+		use = "make(type " + rapid.SampledFrom([]string{"T", "x"}).Draw(t, "tdef") + ", " + "make(" + ty + "))"
+		g.tags["typectx_make_type"] = true
+	}
+	if _, ok := g.tags["type_selector_on_struct_literal"]; ok && strings.HasPrefix(use, "new(") {
+		g.tags["type_selector_on_struct_literal_wrapped_again"] = true
+	}
+	src := rapid.SampledFrom([]string{"", "", "v = ", "var v = ", "y = 1\nv = ", "return ", "f(", "if a {\n\tv = "}).Draw(t, "typepre") + use
+	switch {
+	case strings.HasPrefix(src, "f("):
+		src += ")"
+	case strings.HasPrefix(src, "if a {"):
+		src += "\n}"
+	}
+	src += rapid.SampledFrom([]string{"", "", "\n", "\nz = 2", ".b", "[0]"}).Draw(t, "typepost")
+	in := Input{Kind: "type-expr", Src: src}
+	for _, k := range []string{"type_selector_on_name", "type_selector_on_struct_literal", "type_selector_on_struct_literal_wrapped_again", "type_prefixed_struct_literal", "type_broken_primary",
+		"typectx_new", "typectx_make", "typectx_slice_literal", "typectx_map_literal", "typectx_make_type"} {
+		if g.tags[k] {
+			in.Tags = append(in.Tags, k)
+		}
+	}
+	return in
+}
+
+// ---------- runes that are not of the language ----------
+
+// foreignRune draws a rune that starts no token of the language, by class. One class needs a word: the
+// generated parser numbers the grammar's named tokens from U+E000 upwards (the start of the private use
+// area) and takes single characters as tokens by their code point, so the first code points of that area
+// are the runes a parser could mistake for one of its own tokens (keywords, two-character operators, ...).
+// All 128 of them are drawn with equal weight.
+func foreignRune(t *rapid.T) (rune, string) {
+	switch rapid.IntRange(0, 11).Draw(t, "frclass") {
+	case 0, 1, 2, 3, 4:
+		return rune(0xE000 + mix64(rapid.Uint64().Draw(t, "alias"))%128), "token_number_range"
+	case 5:
+		switch rapid.IntRange(0, 2).Draw(t, "puaplane") {
+		case 0:
+			return rune(rapid.IntRange(0xE080, 0xF8FF).Draw(t, "pua")), "private_use"
+		case 1:
+			return rune(rapid.IntRange(0xF0000, 0xFFFFD).Draw(t, "pua15")), "private_use"
+		default:
+			return rune(rapid.IntRange(0x100000, 0x10FFFD).Draw(t, "pua16")), "private_use"
+		}
+	case 6:
+		return rapid.SampledFrom([]rune{'@', '$', '~', '\\', 0x7f, 1, 2, 7, 8, 0x0b, 0x0c, 0x0e, 0x1b, 0x1f}).Draw(t, "asciinl"), "ascii_not_of_the_language"
+	case 7:
+		return rapid.SampledFrom([]rune{0x85, 0xA0, 0x2028, 0x2029, 0x3000, 0xFEFF, 0x200B, 0x200E, 0x1680, 0x2003}).Draw(t, "spacelike"), "space_like"
+	case 8:
+		return rapid.SampledFrom([]rune{'×', '÷', '≤', '≠', '“', '”', '‘', '’', '«', '€', '٣', '１', '½', '²', '；', '（', '）', '，', '＋', '｛', 0x301, 0x20DD, '§', '¬', '°', '←'}).Draw(t, "symbol"), "symbol_or_mark"
+	case 9:
+		return rapid.SampledFrom([]rune{0xFFFE, 0xFFFF, 0xFFFD, 0x10FFFF, 0x1FFFE, 0xFDD0, 0xD7FF, 0xFFFC, 0x10000, 0xEFFFF, 0x80, 0xFF, 0x100, 0x7FF, 0x800}).Draw(t, "nonchar"), "noncharacter_or_boundary"
+	default:
+		return rune(rapid.IntRange(0x80, 0x10FFFF).Draw(t, "anyrune")), "any_rune"
+	}
+}
+
+var foreignBases = []string{
+	"a", "a = b", "a = 1", "f(a)", "f(a, b)", "x[1]", "a.b", "(a)", "[1, 2]", "{\"k\": 1}", "a + b", "a, b = 1, 2", "var a = 1", "return a", "throw a",
+	"if a {\n\tb\n}", "for i in l {\n\tb = i\n}", "func f(a) {\n\treturn a\n}", "switch a {\ncase 1:\n\tb\n}", "try {\n\ta\n} catch e {\n\tb\n}",
+	"a = func(x) { return x }", "c <- 1", "v = <- c", "go f()", "make([]int64, 1)", "new(int64)", "a ? b : c", "a[1:2]", "!a", "-a", "\"s\"", "1.5", "true", "nil",
+	"a\nb", "a; b", "module m {\n\ta = 1\n}", "len(a)", "delete(m, k)", "a++", "a += 1", "x = a == b && c",
+}
+
+func genForeignRuneInput(t *rapid.T) Input {
+	var base string
+	switch rapid.IntRange(0, 5).Draw(t, "frbase") {
+	case 0:
+		base = wild.Program(t, wild.Opts{Loops: true, Go: true, MaxDepth: 1, MaxStmts: 1})
+	case 1:
+		base = wild.Expression(t, wild.Opts{MaxDepth: 2})
+	default:
+		base = rapid.SampledFrom(foreignBases).Draw(t, "frtemplate")
+	}
+	r := []rune(base)
+	tags := map[string]bool{}
+	for n := rapid.IntRange(1, 3).Draw(t, "nforeign"); n > 0; n-- {
+		fr, cl := foreignRune(t)
+		tags["foreign_"+cl] = true
+		// a run of the same rune now and then
+		ins := []rune{fr}
+		if rapid.IntRange(0, 5).Draw(t, "frrun") == 0 {
+			ins = append(ins, fr)
+		}
+		if rapid.IntRange(0, 3).Draw(t, "frspace") == 0 {
+			ins = append([]rune{' '}, ins...)
+		}
+		at := len(r)
+		switch rapid.IntRange(0, 3).Draw(t, "frwhere") {
+		case 0:
+			at = 0
+			tags["foreign_at_start"] = true
+		case 1:
+			tags["foreign_at_end"] = true
+		default:
+			at = rapid.IntRange(0, len(r)).Draw(t, "frat")
+			tags["foreign_inside"] = true
+		}
+		r = append(r[:at:at], append(ins, r[at:]...)...)
+	}
+	in := Input{Kind: "foreign-rune", Src: string(r)}
+	for _, k := range []string{"foreign_token_number_range", "foreign_private_use", "foreign_ascii_not_of_the_language", "foreign_space_like", "foreign_symbol_or_mark", "foreign_noncharacter_or_boundary", "foreign_any_rune",
+		"foreign_at_start", "foreign_at_end", "foreign_inside"} {
+		if tags[k] {
+			in.Tags = append(in.Tags, k)
+		}
+	}
+	return in
+}
+
 func genInput(t *rapid.T) Input {
-	switch rapid.IntRange(0, 11).Draw(t, "kind") {
+	switch rapid.IntRange(0, 13).Draw(t, "kind") {
+	case 13:
+		return genForeignRuneInput(t)
+	case 12:
+		return genTypeExprInput(t)
 	case 11:
 		// statements the grammar accepts and an action rejects: several else blocks, several defaults
 		blk := func() string {
@@ -64,7 +289,7 @@ func genInput(t *rapid.T) Input {
 					s += " else " + blk()
 				}
 			}
-			return Input{"several-else", rapid.SampledFrom([]string{"", "y = 2\n", "\n\n"}).Draw(t, "pre") + s + rapid.SampledFrom([]string{"", "\nz = 3", "\n"}).Draw(t, "post")}
+			return Input{Kind: "several-else", Src: rapid.SampledFrom([]string{"", "y = 2\n", "\n\n"}).Draw(t, "pre") + s + rapid.SampledFrom([]string{"", "\nz = 3", "\n"}).Draw(t, "post")}
 		}
 		s := "switch a {\n"
 		for n := rapid.IntRange(1, 4).Draw(t, "nclause"); n > 0; n-- {
@@ -75,7 +300,7 @@ func genInput(t *rapid.T) Input {
 				s += "case 1:" + body + "\n"
 			}
 		}
-		return Input{"several-default", s + "}" + rapid.SampledFrom([]string{"", "\nz = 3"}).Draw(t, "post")}
+		return Input{Kind: "several-default", Src: s + "}" + rapid.SampledFrom([]string{"", "\nz = 3"}).Draw(t, "post")}
 	case 10:
 		// one string literal: quote, units (plain rune | backslash + rune), closing quote or not
 		q := rapid.SampledFrom([]string{"\"", "'", "`"}).Draw(t, "quote")
@@ -97,9 +322,9 @@ func genInput(t *rapid.T) Input {
 		default:
 			b.WriteString(q)
 		}
-		return Input{"string-literal", b.String()}
+		return Input{Kind: "string-literal", Src: b.String()}
 	case 0:
-		return Input{"bytes", string(rapid.SliceOfN(rapid.Byte(), 0, 40).Draw(t, "bytes"))}
+		return Input{Kind: "bytes", Src: string(rapid.SliceOfN(rapid.Byte(), 0, 40).Draw(t, "bytes"))}
 	case 1, 2, 3:
 		n := rapid.IntRange(0, 14).Draw(t, "ntok")
 		var b strings.Builder
@@ -109,39 +334,39 @@ func genInput(t *rapid.T) Input {
 				b.WriteByte(' ')
 			}
 		}
-		return Input{"soup", b.String()}
+		return Input{Kind: "soup", Src: b.String()}
 	case 4, 5, 6:
 		// mutation of a valid program
 		src := wild.Program(t, wild.Opts{Loops: true, Go: true, HugeInts: true, MaxDepth: 2, MaxStmts: 3})
 		r := []rune(src)
 		if len(r) == 0 {
-			return Input{"mutated", src}
+			return Input{Kind: "mutated", Src: src}
 		}
 		at := rapid.IntRange(0, len(r)-1).Draw(t, "at")
 		switch rapid.IntRange(0, 4).Draw(t, "mut") {
 		case 0: // truncate
-			return Input{"truncated", string(r[:at])}
+			return Input{Kind: "truncated", Src: string(r[:at])}
 		case 1: // delete a span
 			end := at + rapid.IntRange(1, 6).Draw(t, "span")
 			if end > len(r) {
 				end = len(r)
 			}
-			return Input{"mutated", string(r[:at]) + string(r[end:])}
+			return Input{Kind: "mutated", Src: string(r[:at]) + string(r[end:])}
 		case 2: // insert a token
-			return Input{"mutated", string(r[:at]) + rapid.SampledFrom(vocab).Draw(t, "ins") + string(r[at:])}
+			return Input{Kind: "mutated", Src: string(r[:at]) + rapid.SampledFrom(vocab).Draw(t, "ins") + string(r[at:])}
 		case 3: // duplicate a span
 			end := at + rapid.IntRange(1, 10).Draw(t, "span")
 			if end > len(r) {
 				end = len(r)
 			}
-			return Input{"mutated", string(r[:end]) + string(r[at:end]) + string(r[end:])}
+			return Input{Kind: "mutated", Src: string(r[:end]) + string(r[at:end]) + string(r[end:])}
 		default: // splice two programs
 			other := []rune(wild.Program(t, wild.Opts{MaxDepth: 2, MaxStmts: 2}))
 			at2 := 0
 			if len(other) > 0 {
 				at2 = rapid.IntRange(0, len(other)-1).Draw(t, "at2")
 			}
-			return Input{"spliced", string(r[:at]) + string(other[at2:])}
+			return Input{Kind: "spliced", Src: string(r[:at]) + string(other[at2:])}
 		}
 	case 7:
 		// deep bracket nests, balanced or not
@@ -152,9 +377,9 @@ func genInput(t *rapid.T) Input {
 		if rapid.Bool().Draw(t, "unbalanced") {
 			m = rapid.IntRange(0, n).Draw(t, "closes")
 		}
-		return Input{"nest", strings.Repeat(open, n) + "1" + strings.Repeat(close, m)}
+		return Input{Kind: "nest", Src: strings.Repeat(open, n) + "1" + strings.Repeat(close, m)}
 	default:
-		return Input{"valid", wild.Program(t, wild.Opts{Loops: true, Go: true, HugeInts: true, MaxDepth: 3, MaxStmts: 3})}
+		return Input{Kind: "valid", Src: wild.Program(t, wild.Opts{Loops: true, Go: true, HugeInts: true, MaxDepth: 3, MaxStmts: 3})}
 	}
 }
 
@@ -241,6 +466,9 @@ func debugSwitch() {
 func oracleTotal(c Input, o *h.Obs) *h.Fail {
 	o.Key = c.Src
 	o.Class("input_" + c.Kind)
+	for _, tg := range c.Tags {
+		o.Class(tg)
+	}
 	debugSwitch()
 	r := parseBounded(c.Src)
 	if r.hung {
@@ -248,7 +476,11 @@ func oracleTotal(c Input, o *h.Obs) *h.Fail {
 		if debugSwitchStuck > 0 {
 			note = "\n(a call of parser.EnableDebug(0) made between two earlier parses has not returned either: the parses before it left shared state behind)"
 		}
-		return h.Failf("C15|hang", "ParseSrc did not return within 20 s for input %q%s", c.Src, note)
+		f := h.Failf("C15|hang", "ParseSrc did not return within 20 s for input %q%s", c.Src, note)
+		// the case that hung is reported as it is: re-running it costs 20 s a time, and once a parse is stuck
+		// no later case is parsed at all (nothing to shrink towards)
+		f.NoShrink = true
+		return f
 	}
 	if r.panic != nil {
 		return h.Failf("C15|panic|"+normMsg(fmt.Sprint(r.panic)), "ParseSrc panicked: %v\ninput: %q", r.panic, c.Src)
@@ -441,9 +673,75 @@ func tailDump(st ast.Stmt) string {
 type Pair struct {
 	A string `json:"a"`
 	B string `json:"b"`
+	// AEnd, BEnd: how the text ends (evidence counters only)
+	AEnd string `json:"a_end,omitempty"`
+	BEnd string `json:"b_end,omitempty"`
+}
+
+// lastStatements: one statement per way a text can end - by the token it ends on and by the production that
+// token completes (empty and non-empty composites, calls, indexings, literals of every kind, keywords that
+// stand alone, postfix operators, closing braces of every block statement). Generated programs end every
+// statement with a terminator; a text whose last token is directly followed by the end of input (or by
+// blanks or a comment without a newline) takes one of these.
+var lastStatements = []struct{ class, src string }{
+	{"empty_array", "a = []"}, {"empty_array", "[]"}, {"empty_array", "return []"}, {"empty_array", "x = a + []"}, {"empty_array", "a, b = 1, []"}, {"empty_array", "var v = []"}, {"empty_array", "a = b == []"},
+	{"empty_map", "m = {}"}, {"empty_map", "return {}"}, {"empty_map", "x = [{}]"},
+	{"typed_empty", "s = []int64{}"}, {"typed_empty", "m = map[string]int64{}"}, {"typed_empty", "s = [][]string{}"},
+	{"array", "a = [1, 2]"}, {"array", "[a]"}, {"array", "x = [[]]"}, {"array", "s = []int64{1}"},
+	{"map", "m = {\"k\": 1}"}, {"map", "m = map[string]int64{\"k\": 1}"},
+	{"paren", "(a)"}, {"paren", "x = (a + b)"}, {"paren", "x = ([])"},
+	{"call", "f()"}, {"call", "f(a, b)"}, {"call", "f(a...)"}, {"call", "a.b()"}, {"call", "f([])"}, {"call", "func() { }()"}, {"call", "go f()"}, {"call", "defer f(1)"},
+	{"index", "a[0]"}, {"index", "x = a[0][1]"}, {"index", "a[1:]"}, {"index", "a[:2]"}, {"index", "a[1:2]"}, {"index", "a[0] = []"},
+	{"member", "a.b"}, {"member", "x = a.b.c"},
+	{"ident", "a"}, {"ident", "x = a"}, {"ident", "a, b = b, a"}, {"ident", "var a, b = c, d"}, {"ident", "x = -a"}, {"ident", "x = !a"}, {"ident", "x = *p"}, {"ident", "x = &a"}, {"ident", "x = a ? b : c"}, {"ident", "x = a ?? b"}, {"ident", "x = a && b"}, {"ident", "v = <- c"}, {"ident", "throw e"}, {"ident", "return a, b"},
+	{"number", "1"}, {"number", "x = 1.5"}, {"number", "x = 0x1F"}, {"number", "x = a + 1"}, {"number", "c <- 1"}, {"number", "return 1"}, {"number", "x = -1"},
+	{"string", "x = \"s\""}, {"string", "x = 'c'"}, {"string", "x = `r`"}, {"string", "x = `r\nr`"}, {"string", "\"s\""},
+	{"keyword", "return"}, {"keyword", "break"}, {"keyword", "continue"}, {"keyword", "x = true"}, {"keyword", "x = nil"}, {"keyword", "x = false"},
+	{"incdec", "a++"}, {"incdec", "a--"}, {"incdec", "a[0]++"},
+	{"builtin", "x = len(a)"}, {"builtin", "delete(m, k)"}, {"builtin", "close(c)"}, {"builtin", "x = new(int64)"}, {"builtin", "x = make([]int64)"}, {"builtin", "x = make(chan int64, 1)"}, {"builtin", "x = make(map[string]int64)"}, {"builtin", "x = make(struct{A int64})"}, {"builtin", "make(type T, 1)"}, {"builtin", "x = import(\"x\")"}, {"builtin", "x = len([])"},
+	{"block", "func() { }"}, {"block", "func f(a) {\n\treturn a\n}"}, {"block", "x = func(a...) { return a }"}, {"block", "if a { }"}, {"block", "if a { } else { }"}, {"block", "if a {\n\tb\n} else if c {\n}"}, {"block", "for { break }"}, {"block", "for i in [] { }"}, {"block", "for i = 0; i < 1; i++ { }"},
+	{"block", "try { } catch { }"}, {"block", "try { } catch e { } finally { }"}, {"block", "switch a {\n}"}, {"block", "switch a {\ncase 1:\n\tb\n}"}, {"block", "switch a {\ncase 1:\n\tb\ndefault:\n\tc = []\n}"}, {"block", "module m { }"}, {"block", "module m {\n\ta = []\n}"},
+}
+
+// textEnds: what follows the last token of the text.
+var textEnds = []struct{ class, src string }{
+	{"eof", ""}, {"eof", ""}, {"eof", ""}, {"blank", " "}, {"blank", "\t"}, {"blank", "   "}, {"line_comment", " # c"}, {"line_comment", " // c"}, {"line_comment", "#"}, {"block_comment", " /* c */"}, {"block_comment", "/**/"},
 }
 
 func genValid(t *rapid.T, label string) string {
+	s, _ := genValidE(t, label)
+	return s
+}
+
+// genValidE: a valid text and the class of its ending ("" when it ends as generated programs do, in a terminator).
+func genValidE(t *rapid.T, label string) (string, string) {
+	src := genValidBody(t, label)
+	switch rapid.IntRange(0, 7).Draw(t, label+"_end") {
+	case 0, 1:
+		// a last statement of its own, not followed by a terminator
+		// (rapid favours small numbers; every entry of the lists is to be drawn equally often)
+		ls := lastStatements[mix64(rapid.Uint64().Draw(t, label+"_last"))%uint64(len(lastStatements))]
+		te := textEnds[mix64(rapid.Uint64().Draw(t, label+"_textend"))%uint64(len(textEnds))]
+		if body := strings.TrimRight(src, "; \n"); body == "" || strings.TrimSpace(src) == "" {
+			src = ls.src + te.src
+		} else {
+			sep := rapid.SampledFrom([]string{"\n", "\n", "; ", ";\n", "\n\n"}).Draw(t, label+"_lastsep")
+			if lastLine := body[strings.LastIndexByte(body, '\n')+1:]; !strings.Contains(sep, "\n") && (strings.Contains(lastLine, "#") || strings.Contains(lastLine, "//")) {
+				sep = "\n" // the body ends in a line comment: the statement goes on a line of its own
+			}
+			src = body + sep + ls.src + te.src
+		}
+		return src, ls.class + "|" + te.class
+	case 2:
+		// the generated program without the terminator of its last statement
+		if body := strings.TrimRight(src, "; \n"); body != src {
+			return body, "generated_unterminated"
+		}
+	}
+	return src, ""
+}
+
+func genValidBody(t *rapid.T, label string) string {
 	src := genValid0(t, label)
 	if rapid.IntRange(0, 3).Draw(t, label+"_extra") == 0 {
 		// raw strings and block comments with a text of their own (the scanner collects them), statements
@@ -494,7 +792,12 @@ func genValid0(t *rapid.T, label string) string {
 	}
 }
 
-func genPair(t *rapid.T) Pair { return Pair{genValid(t, "a"), genValid(t, "b")} }
+func genPair(t *rapid.T) Pair {
+	var p Pair
+	p.A, p.AEnd = genValidE(t, "a")
+	p.B, p.BEnd = genValidE(t, "b")
+	return p
+}
 
 func stmtsOf(s ast.Stmt) ([]ast.Stmt, bool) {
 	if s == nil {
@@ -550,6 +853,18 @@ func oracleCompose(c Pair, o *h.Obs) *h.Fail {
 	o.NonTrivial = len(sa) >= 1 && len(sb) >= 1 && shift >= 2
 	o.Class(fmt.Sprintf("a_stmts_%d", min(len(sa), 3)))
 	o.Class(fmt.Sprintf("b_stmts_%d", min(len(sb), 3)))
+	if c.AEnd != "" {
+		o.Class("a_ends_without_terminator")
+		if last, after, ok := strings.Cut(c.AEnd, "|"); ok {
+			o.Class("a_last_statement_" + last)
+			o.Class("a_last_token_followed_by_" + after)
+		} else {
+			o.Class("a_ends_" + c.AEnd)
+		}
+	}
+	if c.BEnd != "" {
+		o.Class("b_ends_without_terminator")
+	}
 	if len(sj) != len(want) {
 		return h.Failf("C15|compose|statement-count", "parse(A) has %d statements, parse(B) %d, parse(A+\\n+B) %d\nA: %q\nB: %q", len(sa), len(sb), len(sj), c.A, c.B)
 	}
@@ -576,8 +891,8 @@ func stripPos(sa, sb []ast.Stmt, i int) string {
 func TestC15(t *testing.T) {
 	c := h.New(t, "C15")
 	defer c.Finish()
-	c.Rule("total: byte strings (random bytes, token soups over the full token vocabulary incl. unterminated strings/comments/NUL/non-UTF-8, truncations/deletions/insertions/duplications/splices of generated valid programs, bracket nests up to 1500 deep, valid programs); non-trivial = >= 3 whitespace-separated chunks and (parses, or rejected at a position other than 1:1). concurrent: batches parsed from 8 goroutines vs alone. compose: pairs of generated valid programs (incl. empty, comment-only, trailing ';', leading blank lines); non-trivial = both have >= 1 statement and A spans >= 2 lines. distinct by text")
-	h.Run(c, "total", c.N(45000, 150000), genInput, oracleTotal)
+	c.Rule("total: byte strings (random bytes, token soups over the full token vocabulary incl. unterminated strings/comments/NUL/non-UTF-8, truncations/deletions/insertions/duplications/splices of generated valid programs, bracket nests up to 1500 deep, valid programs); non-trivial = >= 3 whitespace-separated chunks and (parses, or rejected at a position other than 1:1). concurrent: batches parsed from 8 goroutines vs alone. type-expr inputs: prefixes, a name or struct literal, member selectors in every combination inside new/make/composite literals; foreign-rune inputs: valid texts with 1-3 runes that start no token (by class, incl. the 128 code points from U+E000 that coincide with the parser's token numbers). compose: pairs of generated valid programs (incl. empty, comment-only, trailing ';', leading blank lines; three in eight end without a terminator: a last statement from a list covering every kind of final token and production, followed by nothing, blanks or a comment); non-trivial = both have >= 1 statement and A spans >= 2 lines. distinct by text")
+	h.Run(c, "total", c.N(52500, 175000), genInput, oracleTotal)
 	if c.Thorough() {
 		largeEvery = 240
 	}
